@@ -201,12 +201,27 @@ func driveRegsPar(w *writer) error {
 			return err
 		}
 		if c.Op == "window" {
+			for _, cl := range c.Calls {
+				if cl.Acc == "WithByteOrder" {
+					return nil // histories with option calls need ONE Registers: not for this pass
+				}
+			}
 			cases = append(cases, c)
 		}
 		return nil
 	})
 	if err != nil {
 		return err
+	}
+	if flagTier != "thorough" {
+		// quick tier: every third window (the detector slows this pass down by an order of magnitude)
+		third := cases[:0]
+		for i, c := range cases {
+			if i%3 == 0 {
+				third = append(third, c)
+			}
+		}
+		cases = third
 	}
 	rounds := 4
 	if flagTier == "thorough" {
@@ -287,6 +302,12 @@ func driveRegs(w *writer) error {
 					data = window(c.Payload)
 					r, _ = packet.NewRegisters(data, uint16(c.Start))
 					r.WithByteOrder(packet.ByteOrder(c.Def))
+				}
+				if cl.Acc == "WithByteOrder" {
+					// the option call between reads: the window's default order from here on
+					r.WithByteOrder(packet.ByteOrder(cl.Order))
+					evs = append(evs, Ev{"ev": "setorder", "order": cl.Order})
+					continue
 				}
 				evs = append(evs, doRegCall(r, data, cl))
 			}
